@@ -30,20 +30,22 @@ Proof.
   replace (pos + size - pos) with size by lia. reflexivity.
 Qed.
 
-(** SRFI 33 replace-bit-field size position newfield n: the field of n is cleared and newfield (shifted) or-ed in; for
-    0 <= newfield < 2^size this is: inside the field the bits of newfield, outside those of n *)
+(** SRFI 33 replace-bit-field size position newfield n: inside the field the low [size] bits of newfield (whatever lies above
+    them in newfield is dropped: fixes/C17-srfi33-replace-bit-field-mask.patch), outside the bits of n *)
 Theorem s33_replace_bits size pos nf n k : 0 <= size -> 0 <= pos -> 0 <= k ->
   Z.testbit (s33_replace_bit_field size pos nf n) k
-  = (if inr pos (pos + size) k then false else Z.testbit n k) || Z.testbit nf (k - pos).
+  = if inr pos (pos + size) k then Z.testbit nf (k - pos) else Z.testbit n k.
 Proof.
   intros Hs Hp Hk. unfold s33_replace_bit_field.
-  rewrite s_ior2, s_and2, s_bitwise_not_lnot, s33_mask_ones, Z.lor_spec, Z.land_spec.
-  rewrite Z.lnot_spec by lia. rewrite (Z.shiftl_spec (Z.ones size) pos k), (Z.shiftl_spec nf pos k) by lia.
+  rewrite s_ior2, !s_and2, s_bitwise_not_lnot, s33_mask_ones, Z.lor_spec, Z.land_spec.
+  rewrite Z.lnot_spec by lia.
+  rewrite (Z.shiftl_spec (Z.ones size) pos k), (Z.shiftl_spec (Z.land nf (Z.ones size)) pos k) by lia.
+  rewrite Z.land_spec.
   assert (Z.testbit (Z.ones size) (k - pos) = inr pos (pos + size) k) as ->.
   { destruct (inr_cases pos (pos + size) k) as [[-> H]|[-> H]].
     - rewrite ones_bit by lia. apply Z.ltb_lt. lia.
     - destruct (Z.ltb_spec k pos); [apply Z.testbit_neg_r; lia|]. rewrite ones_bit by lia. apply Z.ltb_ge. lia. }
-  destruct (inr pos (pos + size) k), (Z.testbit n k); reflexivity.
+  destruct (inr pos (pos + size) k), (Z.testbit n k), (Z.testbit nf (k - pos)); reflexivity.
 Qed.
 
 (** SRFI 33 copy-bit-field size position from to: the field of [to] replaced by the same field of [from] *)
@@ -56,6 +58,20 @@ Proof.
   { unfold s_range, s33_mask, s_mask. replace (pos + size - pos) with size by lia. reflexivity. }
   rewrite s_range_bit by lia. reflexivity.
 Qed.
+
+
+(** SRFI 33 test-bit-field? / clear-bit-field address the field by SIZE and POSITION (fixes/C17-srfi33-field-conventions.patch;
+    the pinned 33.sld re-exported SRFI 151's start/end procedures under these names) *)
+Theorem s33_test_bits size pos n : 0 <= size -> 0 <= pos ->
+  s33_test_bit_field_p size pos n = false <-> forall k, pos <= k < pos + size -> Z.testbit n k = false.
+Proof. intros Hs Hp. unfold s33_test_bit_field_p. apply bit_field_any_spec. lia. Qed.
+
+Theorem s33_clear_bits size pos n k : 0 <= size -> 0 <= pos -> 0 <= k ->
+  Z.testbit (s33_clear_bit_field size pos n) k = if inr pos (pos + size) k then false else Z.testbit n k.
+Proof. intros Hs Hp Hk. unfold s33_clear_bit_field. apply clear_bits; lia. Qed.
+
+Example s33_clear_witness : s33_clear_bit_field 4 0 255 = 240 /\ s33_test_bit_field_p 4 0 16 = false.
+Proof. vm_compute. split; reflexivity. Qed.
 
 Example s33_copy_witness : s33_copy_bit_field 8 60 (- 2 ^ 70 - 1) (2 ^ 100) = 2 ^ 100 + (2 ^ 68 - 2 ^ 60).
 Proof. vm_compute. reflexivity. Qed.
